@@ -471,6 +471,24 @@ theorem conc_main (off min max : Nat) (lens : List Nat) (σ : List Nat)
     exact inv.hdisj i j ti tj (a, l) (a', l') hij hti htj (result_facts (inv.hth i ti hti) hri).1
       (result_facts (inv.hth j tj htj) hrj).1
 
+theorem explains_sound_main (h : Hist) (σ : List Nat) (wf : h.wellFormed = true) (hw : explains h σ = true) :
+    (∀ (i a l : Nat), h.res[i]? = some (some (Res.ok a l)) → h.min ≤ a ∧ a + l ≤ h.max ∧ h.lens[i]? = some l) ∧
+    (∀ (i j a l a' l' : Nat), i ≠ j → h.res[i]? = some (some (Res.ok a l)) → h.res[j]? = some (some (Res.ok a' l')) →
+        disj (a, l) (a', l')) := by
+  unfold Hist.wellFormed at wf
+  simp only [Bool.and_eq_true, decide_eq_true_eq, List.all_eq_true] at wf
+  obtain ⟨⟨⟨⟨h0, h1⟩, hl⟩, hB⟩, hlen⟩ := wf
+  unfold explains at hw
+  simp only [List.all_eq_true, List.mem_range, beq_iff_eq] at hw
+  have M := conc_main h.off h.min h.max h.lens σ h0 h1 hl hB
+  have tr : ∀ (i a l : Nat), h.res[i]? = some (some (Res.ok a l)) →
+      resultOf (run (init h.off h.min h.max h.lens) σ) i = some (Res.ok a l) := by
+    intro i a l hi
+    have hi' : i < h.lens.length := by rw [← hlen]; exact (List.getElem?_eq_some_iff.mp hi).1
+    rw [hw i hi', hi]; rfl
+  exact ⟨fun i a l hi => M.1 i a l (tr i a l hi),
+    fun i j a l a' l' hij hi hj => M.2 i j a l a' l' hij (tr i a l hi) (tr j a' l' hj)⟩
+
 theorem admits_sound_main (h : Hist) (ha : admits h = true) :
     (∀ (i a l : Nat), h.res[i]? = some (some (Res.ok a l)) → h.min ≤ a ∧ a + l ≤ h.max ∧ h.lens[i]? = some l) ∧
     (∀ (i j a l a' l' : Nat), i ≠ j → h.res[i]? = some (some (Res.ok a l)) → h.res[j]? = some (some (Res.ok a' l')) →
@@ -478,22 +496,10 @@ theorem admits_sound_main (h : Hist) (ha : admits h = true) :
   unfold admits at ha
   simp only [Bool.and_eq_true] at ha
   obtain ⟨wf, hw⟩ := ha
-  unfold Hist.wellFormed at wf
-  simp only [Bool.and_eq_true, decide_eq_true_eq, List.all_eq_true] at wf
-  obtain ⟨⟨⟨⟨h0, h1⟩, hl⟩, hB⟩, hlen⟩ := wf
   cases hσ : witness h with
   | none => simp [hσ] at hw
   | some σ =>
     simp only [hσ] at hw
-    unfold explains at hw
-    simp only [List.all_eq_true, List.mem_range, beq_iff_eq] at hw
-    have M := conc_main h.off h.min h.max h.lens σ h0 h1 hl hB
-    have tr : ∀ (i a l : Nat), h.res[i]? = some (some (Res.ok a l)) →
-        resultOf (run (init h.off h.min h.max h.lens) σ) i = some (Res.ok a l) := by
-      intro i a l hi
-      have hi' : i < h.lens.length := by rw [← hlen]; exact (List.getElem?_eq_some_iff.mp hi).1
-      rw [hw i hi', hi]; rfl
-    exact ⟨fun i a l hi => M.1 i a l (tr i a l hi),
-      fun i j a l a' l' hij hi hj => M.2 i j a l a' l' hij (tr i a l hi) (tr j a' l' hj)⟩
+    exact explains_sound_main h σ wf hw
 
 end C20L
